@@ -31,7 +31,7 @@ ASSUMPTIONS = [
 ]
 MANIFEST = {
     'level': 'exploration',
-    'technique': 'runtime monitor with a by-construction oracle: boundary-value route text through the real parsers, accepted definitions through the real encoder under every session kind, decoded by an independent codec',
+    'technique': 'runtime monitor with a by-construction oracle: boundary-value route text through the real parsers, accepted definitions through the real encoder under every session kind, decoded by an independent codec; every case written by a real helper process to the real exabgp process with a session established: answer, liveness of process and session, log',
     'text': 'Every generated definition is classified legal/illegal by construction; legal ones must be accepted and encode under '
     'every session kind to the values as written (no wrap, no truncation, no exception), illegal ones must be refused at '
     'parse time with an error message.',
@@ -431,7 +431,7 @@ SESSIONS = [
 
 
 def plan(tier, seed):
-    return [{'shard': i, 'nshards': 16} for i in range(16)]
+    return [{'shard': i, 'nshards': 16} for i in range(16)] + [{'shard': 900 + i, 'daemon': True, 'part': i, 'parts': 4} for i in range(4)]
 
 
 def family_form(case) -> tuple[str, str] | None:
@@ -462,7 +462,122 @@ def parse_family(conf, afi_name: str, line: str):
         conf.neighbors = saved
 
 
+def run_daemon(desc):
+    """every case (legal and illegal, route syntax and family syntax) written by a REAL helper process to the REAL daemon with a
+    session ESTABLISHED: legal -> done, illegal -> error, exactly one answer each; the session is still up afterwards (an
+    accepted definition which cannot be encoded would take it down), the process alive, no unhandled exception on its log"""
+    import json as _json
+    import threading
+
+    from vlib import daemon
+
+    res = Result()
+    r = random.Random(desc['seed'] * 49979693 + desc['part'])
+    cases = cases_for(1) + cases_for(2)
+    for i in range(30):
+        afi, safi = r.choice(c01.FAMS)
+        text, intent = gt.gen_route(r, afi, c01.KIND[safi], rich=0.6, with_pathid=r.random() < 0.4, allow_self=False)
+        cases.append({'field': 'grammar', 'pos': c01.KIND[safi], 'legal': True, 'text': text, 'intent': intent, 'afi': afi})
+    lines = []
+    for c in cases:
+        if c['field'] == 'attribute-size':
+            continue  # 1 000 communities: the quadratic parser is not what this level looks at
+        lines.append((c, 'route', 'peer * announce ' + c['text']))
+        fam = family_form(c)
+        if fam:
+            lines.append((c, 'family', f'peer * announce {fam[0]} {fam[1]}'))
+    lines = [x for i, x in enumerate(lines) if i % desc['parts'] == desc['part']]
+    r.shuffle(lines)
+    script = '#sleep 1.0\n' + ''.join(x[2] + '\n' for x in lines)
+    k0 = SESSIONS[3]  # extended messages, add-path: every legal case of the catalogue can be sent on it
+    text = 'process player {\n    run @PY@ @DIR@/player.py @DIR@/script @DIR@/replies;\n    encoder json;\n}\n' + exa.neighbor_text(
+        las=k0['las'], pas=65009, families=c01.FAMS, asn4=True, addpath=k0['addpath'], addpath_families=c01.FAMS if k0['addpath'] else None, extmsg=True, extra='    adj-rib-out true;\n    api { processes [ player ]; }'
+    )
+    d = daemon.Daemon(text, files={'script': script}, env={'exabgp_log_level': 'ERROR'})
+    peer = None
+    state = {'notif': None, 'closed': False}
+    try:
+        d.start()
+        peer = d.accept()
+        peer.establish(65009)
+        stop = threading.Event()
+
+        def reader():
+            while not stop.is_set():
+                t, b = peer.read_message(0.2)
+                if t == 3:
+                    state['notif'] = (b[0], b[1], bytes(b[2:])[:60])
+                if t is None:
+                    state['closed'] = True
+                    break
+
+        th = threading.Thread(target=reader, daemon=True)
+        th.start()
+        d.wait_lines('replies', lambda ls: any(x.startswith('["end"') for x in ls), timeout=60 + len(lines))
+        import time
+
+        time.sleep(1.0)
+        stop.set()
+        th.join(2)
+        replies = [_json.loads(x) for x in d.lines('replies')]
+        log = d.tail(5000)
+        alive = d.alive()
+    except daemon.Inconclusive as e:
+        daemon.skipped(res, str(e))
+        return res
+    finally:
+        try:
+            if peer is not None:
+                peer.close()
+        except Exception:  # noqa
+            pass
+        d.stop()
+    wit0 = {'level': 'daemon'}
+    if not alive:
+        res.violation('C18/daemon:process-exits', 'the daemon exited while the definitions were offered', dict(wit0, log=log[-2000:]), 'daemon')
+        return res
+    per = []
+    cur = None
+    for kind, textline in replies:
+        if kind == 'sent':
+            cur = {'cmd': textline, 'got': [], 'timeout': False}
+            per.append(cur)
+        elif kind == 'timeout' and cur is not None:
+            cur['timeout'] = True
+        elif kind == 'got' and cur is not None:
+            cur['got'].append(textline)
+    if 'exception.unhandled' in log or 'Traceback' in log or state['notif'] or state['closed']:
+        # find the definitions accepted before the session went down
+        k = log.find('Traceback')
+        res.violation(
+            'C18/daemon:session-lost-or-exception-after-accepted-definition',
+            f'the session ended ({state}) or an unhandled exception was logged while definitions were offered: ' + log[max(0, k) : k + 300],
+            dict(wit0, state=str(state), log=log[-2500:], last_commands=[p_['cmd'][:160] for p_ in per[-12:]]),
+            'daemon',
+        )
+        return res
+    if len(per) != len(lines):
+        daemon.skipped(res, f'the helper sent {len(per)} of {len(lines)} definitions')
+        return res
+    for (c, form, line), p_ in zip(lines, per):
+        terms = [x.strip() for x in p_['got'] if x.strip() in ('done', 'error')]
+        cls = f'daemon:{c["field"]}:{"legal" if c["legal"] else "illegal"}:{form}'
+        wit = dict(wit0, text=line[:600], field=c['field'], position=c['pos'], legal=c['legal'], answer=p_['got'][-3:])
+        if p_['timeout'] or len(terms) != 1:
+            res.violation(f'C18/daemon:answer-count:{c["field"]}', f'{len(terms)} terminal answers (timeout={p_["timeout"]}) to one definition', wit, cls)
+        elif c['legal'] and terms[0] != 'done':
+            res.violation(f'C18/daemon:legal-refused:{c["field"]}:{c["pos"] if c["field"] != "grammar" else form}', f'RFC-legal definition refused by the daemon: {p_["got"][:1]}', wit, cls)
+        elif not c['legal'] and terms[0] != 'error':
+            res.violation(f'C18/daemon:illegal-accepted:{c["field"]}:{c["pos"]}', 'a value the wire cannot hold / malformed text was answered done', wit, cls)
+        else:
+            res.ok(cls, ('daemon', c['field'], c['pos'], form, terms[0]))
+            res.ok('daemon:definitions')
+    return res
+
+
 def run_shard(desc):
+    if desc.get('daemon'):
+        return run_daemon(desc)
     from exabgp.bgp.message.update.collection import RoutedNLRI, UpdateCollection
 
     res = Result()
@@ -600,6 +715,8 @@ def run_shard(desc):
 
 def finish(merged, tier, seed):
     fields = {c.split(':')[0] for c in merged['classes']}
+    if not merged['classes'].get('daemon:definitions'):
+        merged['inconclusive'].append('the daemon level judged no definition')
     need = {'sequence', 'flow-port', 'flow-action', 'vpls-base', 'vpls-endpoint', 'mask', 'as-path', 'med', 'local-preference', 'community', 'large-community', 'label', 'rd', 'structure', 'grammar', 'aggregator-asn', 'origin', 'path-information'}
     if not need <= fields:
         merged['inconclusive'].append(f'fields never judged: {sorted(need - fields)}')
